@@ -1407,7 +1407,10 @@ class Emitter:
         if k == "prange":
             lo = self.lit(p["lo"])
             if p["hi"] is None: return f"{lo} ≤ {v}"
-            hi = self.lit(p["hi"])
+            if p["hi"]["k"] == "path":
+                ph, hi = self.v_path(p["hi"])
+            else:
+                hi = self.lit(p["hi"])
             return f"{lo} ≤ {v} ∧ {v} {'≤' if p['incl'] else '<'} {hi}"
         if k == "por": return " ∨ ".join(f"({self.int_test(v, q)})" for q in p["alts"])
         return None
@@ -1852,6 +1855,7 @@ BUILTIN_METHODS = {
     "rev": "{self}.reverse", "sum": "{self}.sum", "map": _closure_map,
     "is_some": "{self}.isSome", "is_none": "{self}.isNone", "unwrap_or": "({self}.getD {0})",
     "contains": "({self}.contains {0})", "min": "(min {self} {0})", "max": "(max {self} {0})",
+    "saturating_sub": "({self} - {0})", "chunks_exact": "(Rs.chunksExact {0} {self})", "is_multiple_of": "(decide ({self} % {0} = 0))",
     "position": "{self}.pos", "finish": "(H {self})", "values": "(List.map Prod.snd {self})", "keys": "(List.map Prod.fst {self})", "ip": "{self}", "as_secs": "{self}.secs", "subsec_nanos": "{self}.nanos", "get": "{self}[{0}]?", "concat": "{self}.flatten", "starts_with": "({0}.isPrefixOf {self})",
 }
 
